@@ -1485,7 +1485,8 @@ class SpaceManager(SharedSpaceOperations):
         if isinstance(value, Interface) and refmode == "relative":
             basevalue = value._impl.idstr
             for subspace in self._get_subs(space):
-                if name in subspace.own_refs:
+                if (name in subspace.own_refs
+                        and subspace.own_refs[name].is_defined()):
                     break
                 else:
                     subvalue = self._graph.get_relative(
